@@ -1218,6 +1218,26 @@ struct ConcOutcome {
     hook: Option<u64>,
 }
 
+/// one call made by the owner of a workspace on its own workspace while commits are in flight
+struct OwnerCall {
+    /// "add" | "delta" | "rollback"
+    kind: &'static str,
+    op: Option<Transaction>,
+    ok: bool,
+    state_before: TransactionState,
+    had_delta: bool,
+    inv: u64,
+    res: u64,
+}
+
+fn owner_add(ws: &TransactionWorkspace, op: Transaction, had_delta: bool, tick: &AtomicU64) -> OwnerCall {
+    let state_before = ws.state();
+    let inv = tick.fetch_add(1, Ordering::SeqCst);
+    let ok = ws.add_operation(op.clone()).is_ok();
+    let res = tick.fetch_add(1, Ordering::SeqCst);
+    OwnerCall { kind: "add", op: Some(op), ok, state_before, had_delta, inv, res }
+}
+
 /// mode 0 = stress (jitter at the hook, all threads released together), 1 = deterministic parking
 fn conc_case(case_seed: u64, r: &mut Report, forced_mode: Option<u64>) {
     let mut rng = Rng::new(case_seed);
@@ -1255,9 +1275,16 @@ fn conc_case(case_seed: u64, r: &mut Report, forced_mode: Option<u64>) {
         blocks.push(ops);
     }
     // ---- prepared workspaces
+    // workspaces 0..n are committed by their owner thread; workspaces n..n+nb stay open: their
+    // owners keep working on them (add_operation / set delta / rollback) while the others commit,
+    // and with auto-merge they may be taken into another workspace's block at any moment
+    let nb = if auto_merge { rng.weighted(&[2, 3, 2]) } else { rng.weighted(&[5, 2, 1]) };
+    let total = n + nb;
     let mut wss: Vec<Arc<TransactionWorkspace>> = Vec::new();
     let mut ops_of: Vec<Vec<Transaction>> = Vec::new();
-    for i in 0..n {
+    let mut dirs: Vec<Option<Vec<f32>>> = Vec::new();
+    let mut delta_set: Vec<bool> = Vec::new();
+    for i in 0..total {
         let ws = match chain.begin() {
             Ok(w) => w,
             Err(_) => return,
@@ -1278,7 +1305,7 @@ fn conc_case(case_seed: u64, r: &mut Report, forced_mode: Option<u64>) {
             };
             ops.push(op);
         }
-        if rng.chance(1, 12) {
+        if i < n && rng.chance(1, 12) {
             ops.clear(); // an empty workspace among the committers
         }
         for o in &ops {
@@ -1294,13 +1321,19 @@ fn conc_case(case_seed: u64, r: &mut Report, forced_mode: Option<u64>) {
                 _ => Some(unit(dim, 0)),
             },
         };
-        if let Some(d) = dir {
+        // an open workspace sometimes gets its delta only while the commits are running
+        let later = i >= n && dir.is_some() && rng.chance(1, 3);
+        if let (Some(d), false) = (&dir, later) {
             ws.set_before_embedding(&vec![0.0; dim]);
-            ws.compute_delta(&d);
+            ws.compute_delta(d);
         }
+        delta_set.push(dir.is_some() && !later);
+        dirs.push(dir);
         wss.push(ws);
         ops_of.push(ops);
     }
+    // operations the owner of a committing workspace still adds before it calls commit
+    let pre_adds: Vec<usize> = (0..n).map(|_| rng.weighted(&[3, 2, 1])).collect();
     let prefix_height = chain.height();
     // some committers fail late: when they reach the hook (pre-image taken, nothing applied yet) the
     // proposer key disappears from the validator registry, so append refuses their block after
@@ -1313,9 +1346,15 @@ fn conc_case(case_seed: u64, r: &mut Report, forced_mode: Option<u64>) {
     let gates: Vec<Arc<Gate>> = (0..n).map(|_| Gate::new()).collect();
     let hook_ticks: Vec<Arc<AtomicU64>> = (0..n).map(|_| Arc::new(AtomicU64::new(0))).collect();
     let start_flags: Vec<AtomicBool> = (0..n).map(|_| AtomicBool::new(false)).collect();
+    // owners of the open workspaces: free-running in stress mode, one action per controller
+    // "phase" in parked mode (so that they act while a committer sits at the hook)
+    let go = AtomicBool::new(false);
+    let all_done = AtomicBool::new(false);
+    let phase = AtomicU64::new(0);
+    let acks = AtomicU64::new(0);
     let mut schedule: Vec<String> = Vec::new();
     let mut harness_timeout = false;
-    let outcomes: Vec<ConcOutcome> = std::thread::scope(|sc| {
+    let (outcomes, mut calls): (Vec<ConcOutcome>, Vec<Vec<OwnerCall>>) = std::thread::scope(|sc| {
         let mut hs = Vec::new();
         for i in 0..n {
             let chain = &chain;
@@ -1328,6 +1367,8 @@ fn conc_case(case_seed: u64, r: &mut Report, forced_mode: Option<u64>) {
             let jseed = case_seed ^ (i as u64 + 1).wrapping_mul(0x9E37_79B9);
             let fl = fail_late[i];
             let chain_h = Arc::clone(chain);
+            let npre = pre_adds[i];
+            let had_delta = delta_set[i];
             hs.push(sc.spawn(move || {
                 let at_hook = move |ht2: &AtomicU64| {
                     ht2.store(1, Ordering::SeqCst);
@@ -1363,6 +1404,13 @@ fn conc_case(case_seed: u64, r: &mut Report, forced_mode: Option<u64>) {
                     }
                     std::thread::sleep(Duration::from_micros(30));
                 }
+                // the owner still adds operations, then commits (another commit may have merged
+                // this workspace meanwhile: then these calls and the commit must fail)
+                let mut mine = Vec::new();
+                for k in 0..npre {
+                    let op = Transaction::Put { key: format!("u:w{}late{}", i, k), data: format!("w{}.late{}", i, k).into_bytes() };
+                    mine.push(owner_add(&ws, op, had_delta, tick));
+                }
                 let inv = tick.fetch_add(1, Ordering::SeqCst);
                 let res = chain.commit(&ws);
                 let rt = tick.fetch_add(1, Ordering::SeqCst);
@@ -1372,15 +1420,114 @@ fn conc_case(case_seed: u64, r: &mut Report, forced_mode: Option<u64>) {
                 }
                 done.store(true, Ordering::SeqCst);
                 let hook = if ht.load(Ordering::SeqCst) != 0 { Some(1) } else { None };
-                match res {
+                let o = match res {
                     Ok(h) => ConcOutcome { ok: Some(h), err: None, inv, res: rt, hook },
                     Err(e) => ConcOutcome { ok: None, err: Some(e.to_string()), inv, res: rt, hook },
-                }
+                };
+                (Some(o), mine)
             }));
         }
+        for bi in n..total {
+            let chain = &chain;
+            let ws = wss[bi].clone();
+            let tick = &tick;
+            let (go, all_done, phase, acks) = (&go, &all_done, &phase, &acks);
+            let mut orng = Rng::new(case_seed ^ (bi as u64 + 17).wrapping_mul(0xA24B_AED4_963E_E407));
+            let dir = dirs[bi].clone();
+            let mut has_delta = delta_set[bi];
+            hs.push(sc.spawn(move || {
+                let mut mine: Vec<OwnerCall> = Vec::new();
+                let t0 = Instant::now();
+                while !go.load(Ordering::SeqCst) && t0.elapsed() < Duration::from_secs(60) {
+                    std::thread::sleep(Duration::from_micros(30));
+                }
+                let mut seen = 0u64;
+                let mut k = 0usize;
+                let mut finished = false;
+                loop {
+                    if all_done.load(Ordering::SeqCst) {
+                        break;
+                    }
+                    if mode == 1 {
+                        // one action per phase announced by the controller
+                        let p = phase.load(Ordering::SeqCst);
+                        if p == seen {
+                            std::thread::sleep(Duration::from_micros(20));
+                            continue;
+                        }
+                        seen += 1;
+                    } else {
+                        if k >= 40 || finished {
+                            std::thread::sleep(Duration::from_micros(50));
+                            continue;
+                        }
+                        match orng.below(4) {
+                            0 => std::thread::yield_now(),
+                            1 => std::thread::sleep(Duration::from_micros(10 + orng.below(150) as u64)),
+                            _ => {}
+                        }
+                    }
+                    if !finished {
+                        match orng.below(20) {
+                            0 => {
+                                // the owner gives up: rollback of its own workspace
+                                let state_before = ws.state();
+                                let inv = tick.fetch_add(1, Ordering::SeqCst);
+                                let ok = chain.rollback(&ws).is_ok();
+                                let res = tick.fetch_add(1, Ordering::SeqCst);
+                                mine.push(OwnerCall { kind: "rollback", op: None, ok, state_before, had_delta: has_delta, inv, res });
+                                finished = true;
+                            }
+                            1 | 2 | 3 if !has_delta && dir.is_some() => {
+                                let state_before = ws.state();
+                                let inv = tick.fetch_add(1, Ordering::SeqCst);
+                                ws.set_before_embedding(&vec![0.0; dim]);
+                                ws.compute_delta(dir.as_ref().unwrap());
+                                let res = tick.fetch_add(1, Ordering::SeqCst);
+                                has_delta = true;
+                                mine.push(OwnerCall { kind: "delta", op: None, ok: true, state_before, had_delta: false, inv, res });
+                            }
+                            _ => {
+                                let key = if orng.chance(1, 5) { "u:shared".to_string() } else { format!("u:w{}late{}", bi, k) };
+                                let op = Transaction::Put { key, data: format!("w{}.late{}", bi, k).into_bytes() };
+                                mine.push(owner_add(&ws, op, has_delta, tick));
+                                k += 1;
+                            }
+                        }
+                    }
+                    if mode == 1 {
+                        acks.fetch_add(1, Ordering::SeqCst);
+                    }
+                }
+                (None, mine)
+            }));
+        }
+        go.store(true, Ordering::SeqCst);
+        // parked mode: let every owner of an open workspace act once, and wait for it (bounded)
+        let mut phases = 0u64;
+        let bump = |phases: &mut u64| {
+            if nb == 0 {
+                return;
+            }
+            *phases += 1;
+            phase.store(*phases, Ordering::SeqCst);
+            let t0 = Instant::now();
+            while acks.load(Ordering::SeqCst) < *phases * nb as u64 && t0.elapsed() < Duration::from_millis(100) {
+                std::thread::sleep(Duration::from_micros(20));
+            }
+        };
         if mode == 0 {
             for f in &start_flags {
                 f.store(true, Ordering::SeqCst);
+            }
+            // stress mode: the owners run freely until every committer has returned
+            let t0 = Instant::now();
+            while !done.iter().all(|d| d.load(Ordering::SeqCst)) {
+                if t0.elapsed() > Duration::from_secs(60) {
+                    harness_timeout = true;
+                    break;
+                }
+                std::thread::sleep(Duration::from_micros(50));
             }
         } else {
             // random valid interleaving of start_i / release_i events
@@ -1401,6 +1548,9 @@ fn conc_case(case_seed: u64, r: &mut Report, forced_mode: Option<u64>) {
                     std::thread::sleep(Duration::from_micros(50));
                 }
             };
+            if rng.bool() {
+                bump(&mut phases);
+            }
             while !pending_start.is_empty() || !started.is_empty() {
                 let do_start = !pending_start.is_empty() && (started.is_empty() || all_first || rng.bool());
                 if do_start {
@@ -1411,6 +1561,12 @@ fn conc_case(case_seed: u64, r: &mut Report, forced_mode: Option<u64>) {
                     let settled = wait_settled(i, Duration::from_millis(150));
                     schedule.push(format!("start{}{}", i, if done[i].load(Ordering::SeqCst) { "(finished)" } else if settled { "(parked)" } else { "(blocked)" }));
                     started.push(i);
+                    // the committer sits at the hook (its merge set is fixed, nothing applied yet):
+                    // the owners of the open workspaces act now
+                    if nb > 0 {
+                        bump(&mut phases);
+                        schedule.push("owners-act".into());
+                    }
                 } else {
                     // release one committer, or a group at the same instant (they then race through
                     // apply / build / append, the window the hook itself cannot pin down)
@@ -1422,6 +1578,10 @@ fn conc_case(case_seed: u64, r: &mut Report, forced_mode: Option<u64>) {
                     }
                     for &i in &rel {
                         gates[i].release();
+                    }
+                    // owners also act while the released committers apply / append
+                    if nb > 0 && rng.bool() {
+                        bump(&mut phases);
                     }
                     for &i in &rel {
                         let t0 = Instant::now();
@@ -1444,23 +1604,84 @@ fn conc_case(case_seed: u64, r: &mut Report, forced_mode: Option<u64>) {
             for g in &gates {
                 g.release();
             }
+            let t0 = Instant::now();
+            while !done.iter().all(|d| d.load(Ordering::SeqCst)) {
+                if t0.elapsed() > Duration::from_secs(60) {
+                    harness_timeout = true;
+                    break;
+                }
+                std::thread::sleep(Duration::from_micros(50));
+            }
         }
-        hs.into_iter()
-            .map(|h| h.join().unwrap_or(ConcOutcome { ok: None, err: Some("<commit panicked>".into()), inv: 0, res: 0, hook: None }))
-            .collect()
+        all_done.store(true, Ordering::SeqCst);
+        let mut outs = Vec::new();
+        let mut calls = Vec::new();
+        for h in hs {
+            match h.join() {
+                Ok((o, c)) => {
+                    if let Some(o) = o {
+                        outs.push(o);
+                    }
+                    calls.push(c);
+                }
+                Err(_) => {
+                    outs.push(ConcOutcome { ok: None, err: Some("<commit panicked>".into()), inv: 0, res: 0, hook: None });
+                    calls.push(Vec::new());
+                }
+            }
+        }
+        (outs, calls)
     });
     chain.register_validator(chain.identity());
     if harness_timeout || gates.iter().any(|g| g.timed_out()) {
         r.inconclusive("concurrent: a parked committer was not released in time (harness watchdog)");
         return;
     }
-    if outcomes.iter().any(|o| o.err.as_deref() == Some("<commit panicked>")) {
+    if outcomes.len() != n || calls.len() != total || outcomes.iter().any(|o| o.err.as_deref() == Some("<commit panicked>")) {
         r.violation("concurrent-commit:panic", format!("a commit() call panicked [{}]", cfg_desc), replay);
         return;
     }
 
     // ---- judge at quiescence
     let states: Vec<TransactionState> = wss.iter().map(|w| w.state()).collect();
+    // what each workspace consists of = every operation its owner was told was accepted, in order
+    let initial_len: Vec<usize> = ops_of.iter().map(|o| o.len()).collect();
+    for (idx, cs) in calls.iter_mut().enumerate() {
+        cs.sort_by_key(|c| c.inv);
+        for c in cs.iter() {
+            if c.kind == "add" && c.ok {
+                if let Some(op) = &c.op {
+                    ops_of[idx].push(op.clone());
+                }
+            }
+        }
+    }
+    let ok_of = |i: usize| -> Option<BlockHash> { if i < n { outcomes[i].ok } else { None } };
+    // non-vacuity: owner calls that overlapped another workspace's commit call in real time
+    {
+        let cos_orth = |a: &Option<Vec<f32>>, b: &Option<Vec<f32>>| match (a, b) {
+            (Some(x), Some(y)) => x.iter().zip(y).map(|(p, q)| p * q).sum::<f32>().abs() < 0.1,
+            _ => false,
+        };
+        for (idx, cs) in calls.iter().enumerate() {
+            for c in cs {
+                let over: Vec<usize> = (0..n).filter(|&j| j != idx && c.inv < outcomes[j].res && outcomes[j].inv < c.res).collect();
+                if over.is_empty() {
+                    continue;
+                }
+                r.count(&format!("conc_owner_{}_overlapping_commit", c.kind), 1);
+                if c.kind == "add" && auto_merge && c.had_delta && over.iter().any(|&j| delta_set[j] && cos_orth(&dirs[idx], &dirs[j])) {
+                    r.count("conc_owner_add_on_merge_candidate_overlapping_commit", 1);
+                    if c.ok {
+                        r.count("conc_owner_add_on_merge_candidate_accepted", 1);
+                    } else {
+                        r.count("conc_owner_add_on_merge_candidate_refused", 1);
+                    }
+                }
+            }
+        }
+        r.count("conc_open_workspaces", nb as u64);
+    }
     let overlapping = (0..n).any(|i| (0..n).any(|j| i != j && outcomes[i].inv < outcomes[j].res && outcomes[j].inv < outcomes[i].res));
     let hooks = outcomes.iter().filter(|o| o.hook.is_some()).count() as u64;
     r.count("conc_cases", 1);
@@ -1481,17 +1702,26 @@ fn conc_case(case_seed: u64, r: &mut Report, forced_mode: Option<u64>) {
         r.count("conc_parks", schedule.iter().filter(|s| s.ends_with("(parked)")).count() as u64);
     }
     let summary = || {
-        (0..n)
+        (0..total)
             .map(|i| {
+                let own: Vec<String> = calls[i]
+                    .iter()
+                    .map(|c| format!("{}{}@{}..{}={}", c.kind, c.op.as_ref().map(|o| format!(" {}", tx_short(o))).unwrap_or_default(), c.inv, c.res, if c.ok { "Ok" } else { "Err" }))
+                    .collect();
                 format!(
-                    "w{}{} {:?} -> {} [state {}]",
+                    "w{}{} initial {:?} owner calls {:?} -> {} [state {}]",
                     i,
-                    if fail_late[i] { "(proposer key removed at its hook)" } else { "" },
-                    ops_of[i].iter().map(tx_short).collect::<Vec<_>>(),
-                    match (&outcomes[i].ok, &outcomes[i].err) {
-                        (Some(h), _) => format!("Ok({})", short(h)),
-                        (_, Some(e)) => format!("Err({})", e),
-                        _ => "?".into(),
+                    if i < n && fail_late[i] { "(proposer key removed at its hook)" } else { "" },
+                    ops_of[i][..initial_len[i]].iter().map(tx_short).collect::<Vec<_>>(),
+                    own,
+                    if i >= n {
+                        "stays open (no commit call)".to_string()
+                    } else {
+                        match (&outcomes[i].ok, &outcomes[i].err) {
+                            (Some(h), _) => format!("commit@{}..{}=Ok({})", outcomes[i].inv, outcomes[i].res, short(h)),
+                            (_, Some(e)) => format!("commit@{}..{}=Err({})", outcomes[i].inv, outcomes[i].res, e),
+                            _ => "?".into(),
+                        }
                     },
                     state_name(states[i])
                 )
@@ -1510,12 +1740,22 @@ fn conc_case(case_seed: u64, r: &mut Report, forced_mode: Option<u64>) {
     }
     let height = chain.height();
     // every block after the prefix must be readable and be whole committed workspaces
-    let committed: Vec<usize> = (0..n).filter(|&i| states[i] == TransactionState::Committed).collect();
+    let committed: Vec<usize> = (0..total).filter(|&i| states[i] == TransactionState::Committed).collect();
     for i in 0..n {
         if outcomes[i].ok.is_some() && states[i] != TransactionState::Committed {
             fail!("concurrent-commit:ok-but-not-committed", format!("commit(w{}) returned Ok but its state is {}", i, state_name(states[i])));
         }
     }
+    // an operation must not be accepted on a workspace that was no longer Active when the call began
+    // (states never return to Active)
+    for i in 0..total {
+        for c in &calls[i] {
+            if c.kind == "add" && c.ok && c.state_before != TransactionState::Active {
+                fail!("concurrent-commit:operation-accepted-on-workspace-not-active", format!("add_operation on w{} returned Ok although the workspace was {} before the call", i, state_name(c.state_before)));
+            }
+        }
+    }
+    let rolled_back_ok: Vec<usize> = (0..total).filter(|&i| calls[i].iter().any(|c| c.kind == "rollback" && c.ok)).collect();
     let mut used: BTreeSet<usize> = BTreeSet::new();
     let mut new_blocks: Vec<Vec<Transaction>> = Vec::new();
     for h in prefix_height + 1..=height {
@@ -1529,7 +1769,12 @@ fn conc_case(case_seed: u64, r: &mut Report, forced_mode: Option<u64>) {
             fail!("concurrent-commit:block-without-successful-commit", format!("block {} ({:?}) was returned by no successful commit", h, b.transactions.iter().map(tx_short).collect::<Vec<_>>()));
         };
         // the rest must be whole merged workspaces (committed, their own call did not return Ok)
-        let cands: Vec<usize> = committed.iter().copied().filter(|&j| j != pi && !used.contains(&j) && outcomes[j].ok.is_none()).collect();
+        let mut cands: Vec<usize> = committed.iter().copied().filter(|&j| j != pi && !used.contains(&j) && ok_of(j).is_none()).collect();
+        for &j in &rolled_back_ok {
+            if j != pi && !used.contains(&j) && !cands.contains(&j) {
+                cands.push(j);
+            }
+        }
         let mut found: Option<Vec<usize>> = None;
         for mask in 0u32..(1 << cands.len()) {
             let sel: Vec<usize> = cands.iter().enumerate().filter(|(k, _)| mask & (1 << k) != 0).map(|(_, &j)| j).collect();
@@ -1547,9 +1792,56 @@ fn conc_case(case_seed: u64, r: &mut Report, forced_mode: Option<u64>) {
                 r.count("conc_merged_workspaces", sel.len() as u64);
                 used.extend(sel);
             }
-            None => fail!("concurrent-commit:block-is-not-whole-workspaces", format!("block {} holds {:?}", h, b.transactions.iter().map(tx_short).collect::<Vec<_>>())),
+            None => {
+                // is the block made of the workspaces as they were at some EARLIER moment, i.e. did an
+                // operation that was accepted later get lost?
+                let mut lost: Option<String> = None;
+                'outer: for mask in 0u32..(1 << cands.len()) {
+                    let sel: Vec<usize> = cands.iter().enumerate().filter(|(k, _)| mask & (1 << k) != 0).map(|(_, &j)| j).collect();
+                    // every member (primary first) may be cut back to any length >= its initial one
+                    let members: Vec<usize> = std::iter::once(pi).chain(sel.iter().copied()).collect();
+                    let mut cuts: Vec<usize> = members.iter().map(|&j| initial_len[j]).collect();
+                    loop {
+                        let prim_ops = ops_of[pi][..cuts[0]].to_vec();
+                        let mops: Vec<Vec<Transaction>> = members[1..].iter().zip(&cuts[1..]).map(|(&j, &c)| ops_of[j][..c].to_vec()).collect();
+                        if segments_ok(&b.transactions, &prim_ops, &mops) {
+                            let which: Vec<String> = members.iter().zip(&cuts).filter(|(&j, &c)| c < ops_of[j].len()).map(|(&j, &c)| format!("w{}: {:?}", j, ops_of[j][c..].iter().map(tx_short).collect::<Vec<_>>())).collect();
+                            lost = Some(which.join(", "));
+                            break 'outer;
+                        }
+                        // next combination of cut points
+                        let mut k = 0;
+                        loop {
+                            if k == cuts.len() {
+                                break;
+                            }
+                            if cuts[k] < ops_of[members[k]].len() {
+                                cuts[k] += 1;
+                                break;
+                            }
+                            cuts[k] = initial_len[members[k]];
+                            k += 1;
+                        }
+                        if k == cuts.len() {
+                            break;
+                        }
+                    }
+                }
+                match lost {
+                    Some(which) => fail!(
+                        "concurrent-commit:accepted-operation-missing-from-committed-workspace",
+                        format!("block {} holds {:?}: operations whose add_operation returned Ok are in no block although their workspace is committed: {}", h, b.transactions.iter().map(tx_short).collect::<Vec<_>>(), which)
+                    ),
+                    None => fail!("concurrent-commit:block-is-not-whole-workspaces", format!("block {} holds {:?}", h, b.transactions.iter().map(tx_short).collect::<Vec<_>>())),
+                }
+            }
         }
         new_blocks.push(b.transactions.clone());
+    }
+    for &i in &rolled_back_ok {
+        if used.contains(&i) {
+            fail!("concurrent-commit:rolled-back-workspace-in-a-block", format!("rollback(w{}) returned Ok to its owner, yet a block holds the workspace's transactions (final state {})", i, state_name(states[i])));
+        }
     }
     for &i in &committed {
         if !ops_of[i].is_empty() && !used.contains(&i) {
@@ -1567,7 +1859,7 @@ fn conc_case(case_seed: u64, r: &mut Report, forced_mode: Option<u64>) {
     }
     // store: (a) single-writer keys, (b) writes of uncommitted workspaces, (c) block-order replay
     let mut writers: BTreeMap<String, Vec<usize>> = BTreeMap::new();
-    for i in 0..n {
+    for i in 0..total {
         for t in &ops_of[i] {
             let e = writers.entry(t.storage_key()).or_default();
             if !e.contains(&i) {
@@ -1602,12 +1894,17 @@ fn conc_case(case_seed: u64, r: &mut Report, forced_mode: Option<u64>) {
         fail!("concurrent-commit:store-differs-from-block-order", d);
     }
     r.count("conc_store_checks", 1);
-    let oc: Vec<String> = (0..n).map(|i| format!("{}{}", if outcomes[i].ok.is_some() { "O" } else { "E" }, state_name(states[i]))).collect();
+    let oc: Vec<String> = (0..total).map(|i| format!("{}{}", if ok_of(i).is_some() { "O" } else { "E" }, state_name(states[i]))).collect();
     // event order: invocation / response ticks
     let mut ev: Vec<(u64, String)> = Vec::new();
     for i in 0..n {
         ev.push((outcomes[i].inv, format!("i{}", i)));
         ev.push((outcomes[i].res, format!("r{}", i)));
+    }
+    for i in 0..total {
+        for c in &calls[i] {
+            ev.push((c.inv, format!("{}{}{}", &c.kind[..1], i, if c.ok { "+" } else { "-" })));
+        }
     }
     ev.sort();
     let order: Vec<String> = ev.into_iter().map(|e| e.1).collect();
@@ -2149,7 +2446,7 @@ fn main() {
             floors.extend([("seq_programs", 60), ("seq_commit_ok", 150), ("seq_verify_calls", 1500), ("seq_commit_failed_after_apply_with_later_blocks", 15)]);
         }
         if on("concurrent") {
-            floors.extend([("conc_cases", 100), ("conc_cases_with_overlapping_calls", 50), ("conc_hook_hits", 100), ("conc_parked_cases", 20), ("conc_cases_with_late_failure_and_success", 15)]);
+            floors.extend([("conc_cases", 100), ("conc_cases_with_overlapping_calls", 50), ("conc_hook_hits", 100), ("conc_parked_cases", 20), ("conc_cases_with_late_failure_and_success", 15), ("conc_owner_add_overlapping_commit", 300), ("conc_owner_add_on_merge_candidate_overlapping_commit", 50)]);
         }
         if on("replay") {
             floors.extend([("replay_cases", 40), ("replay_blocks_applied", 100), ("replay_apply_committed_calls", 40)]);
@@ -2163,7 +2460,7 @@ fn main() {
     }
     let meta = Meta {
         property: "C16",
-        rule: "seq: one evaluation = one random program (12-41 calls of begin/add_operation/set delta/commit/rollback/append_block over <=4 open workspaces, auto-merge on/off, block size limit; one commit in five runs while the proposer's key is absent from the validator registry, so it is refused by append AFTER its writes were applied, often with blocks of other workspaces committed since its begin; appended blocks may carry validator endorsements) judged after EVERY call (verify() passes, height = accepted blocks, user keys of the store = block-order application of committed transactions, failed commit / rollback leave the full store dump and height/tip identical) and at the end (stored blocks walked through get_block, history()); distinct by the hash of the call/outcome trace, non-trivial if workspaces overlapped and at least one block was committed. tamper: one evaluation = one (stored block, mutation) pair on a 4-7 block chain built by commit/append_block with three registered validators, at least two blocks carrying validator endorsements (add_signature); mutations include every single field of header, transactions and endorsement entries, and every signed element (endorsement entry, endorsement list, proposer signature, header, transactions) moved in from ANOTHER stored block; the altered record is written through the underlying store and verify() must fail; distinct by (scope, field class, variant, how the block was produced, tip/inner); every evaluated mutation changes the stored bytes and the decoded block. concurrent: one evaluation = 2-4 prepared workspaces committed from as many threads (keys disjoint/shared/mixed, deltas none/orthogonal/conflicting/mixed, auto-merge on/off, 0-2 prior blocks; each committer with probability 1/4 fails late: the proposer key is removed from the registry when it reaches the hook and registered again when its call has returned), either started together with jitter at the hook or parked at chain_commit:after_preimage and released singly / in groups in a seeded order; judged at quiescence (verify(), every block after the prefix = whole committed workspaces, each committed workspace in exactly one block, height = successful non-empty commits, stored chain walk, store = block-order application, single-writer keys present, failed writers invisible); distinct by configuration + schedule + outcomes + invocation/response order, non-trivial if at least two commit calls overlapped in real time. reopen: one evaluation = a chain of 1-5 committed blocks whose store image is re-opened 1-3 times by a new TensorChain with the same identity (persisted height exact / 1-2 behind the stored blocks, as after a crash between writing a block and writing the height / 0 / ahead), walked, extended by 1-3 commits, then verify(), the stored-chain walk (each prev_hash = hash of predecessor, tip hash) and store = block-order application are judged. replay: one evaluation = one block sequence (2-6 blocks, optionally preceded by malformed variants) applied to two fresh replicas through TensorStateMachine::apply_block or a Raft follower + apply_committed; accept/reject decisions and compute_state_root after every entry must agree between replicas, well-formed blocks must be accepted, replica user keys = block-order application; non-trivial if >= 2 blocks were applied.",
+        rule: "seq: one evaluation = one random program (12-41 calls of begin/add_operation/set delta/commit/rollback/append_block over <=4 open workspaces, auto-merge on/off, block size limit; one commit in five runs while the proposer's key is absent from the validator registry, so it is refused by append AFTER its writes were applied, often with blocks of other workspaces committed since its begin; appended blocks may carry validator endorsements) judged after EVERY call (verify() passes, height = accepted blocks, user keys of the store = block-order application of committed transactions, failed commit / rollback leave the full store dump and height/tip identical) and at the end (stored blocks walked through get_block, history()); distinct by the hash of the call/outcome trace, non-trivial if workspaces overlapped and at least one block was committed. tamper: one evaluation = one (stored block, mutation) pair on a 4-7 block chain built by commit/append_block with three registered validators, at least two blocks carrying validator endorsements (add_signature); mutations include every single field of header, transactions and endorsement entries, and every signed element (endorsement entry, endorsement list, proposer signature, header, transactions) moved in from ANOTHER stored block; the altered record is written through the underlying store and verify() must fail; distinct by (scope, field class, variant, how the block was produced, tip/inner); every evaluated mutation changes the stored bytes and the decoded block. concurrent: one evaluation = 2-4 prepared workspaces committed from as many threads (keys disjoint/shared/mixed, deltas none/orthogonal/conflicting/mixed, auto-merge on/off, 0-2 prior blocks; the owner of a committing workspace still adds 0-2 operations right before its commit call, and 0-2 further workspaces stay open while their owners keep calling add_operation / set delta / rollback on them (free-running in stress mode, once per controller step while a committer sits at the hook in parked mode); a workspace consists of every operation whose add_operation returned Ok: if it ends up Committed (own commit or merged) all of them must be in exactly one block and in the store, an operation accepted on a workspace that was not Active before the call is a violation, and a workspace whose rollback returned Ok must be in no block; each committer with probability 1/4 fails late: the proposer key is removed from the registry when it reaches the hook and registered again when its call has returned), either started together with jitter at the hook or parked at chain_commit:after_preimage and released singly / in groups in a seeded order; judged at quiescence (verify(), every block after the prefix = whole committed workspaces, each committed workspace in exactly one block, height = successful non-empty commits, stored chain walk, store = block-order application, single-writer keys present, failed writers invisible); distinct by configuration + schedule + outcomes + invocation/response order, non-trivial if at least two commit calls overlapped in real time. reopen: one evaluation = a chain of 1-5 committed blocks whose store image is re-opened 1-3 times by a new TensorChain with the same identity (persisted height exact / 1-2 behind the stored blocks, as after a crash between writing a block and writing the height / 0 / ahead), walked, extended by 1-3 commits, then verify(), the stored-chain walk (each prev_hash = hash of predecessor, tip hash) and store = block-order application are judged. replay: one evaluation = one block sequence (2-6 blocks, optionally preceded by malformed variants) applied to two fresh replicas through TensorStateMachine::apply_block or a Raft follower + apply_committed; accept/reject decisions and compute_state_root after every entry must agree between replicas, well-formed blocks must be accepted, replica user keys = block-order application; non-trivial if >= 2 blocks were applied.",
         assumptions: vec![
             "auto-merge uses an unbounded merge window (u64::MAX) or is disabled, so no verdict depends on the 100 ms wall-clock default".into(),
             "compare-and-swap transactions are generated with a non-empty expectation only (the behaviour for an absent key and an empty expectation is not specified)".into(),
